@@ -39,6 +39,8 @@ class Unique:
     def sigma(self):
         self.num += 1
         val = float(fmt(0.1 + (self.num % 99999) * 1e-3))
+        if val in self.used:
+            return self.sigma()
         return val
 
 
@@ -250,6 +252,10 @@ def rewrite(text, rng):
     e (sorted pair or None), score, sigma, response (header values), zone
     (the scoring zone line), steps ({'time': (lo, hi), ...}).'''
     uniq = Unique(rng)
+    # the new numbers must not collide with numbers the listing holds in
+    # places that are not rewritten
+    uniq.used.update(float(tok) for tok in re.findall(NUM, text))
+    uniq.used.update(-val for val in list(uniq.used))
     rows, out = [], []
     ctx = {'response': {}, 'zone': None, 'steps': {}}
     pending = {}
